@@ -26,6 +26,12 @@ def _key_path(e):
     return None
 
 
+def _key_base(e):
+    while isinstance(e, ast.Subscript):
+        e = e.value
+    return e.id if isinstance(e, ast.Name) else None
+
+
 class RoleFlow:
     def __init__(self, model, modules):
         self.model = model
@@ -42,7 +48,7 @@ class RoleFlow:
             return {('const', src(e))}
         kp = _key_path(e)
         if kp is not None:
-            return {('key', kp)}
+            return self.keyed(fi, e, kp, seen)
         if isinstance(e, ast.Name):
             return self.local(fi, e.id, seen)
         if isinstance(e, ast.Subscript) and isinstance(e.slice, ast.Constant) and isinstance(e.slice.value, int) and isinstance(e.value, ast.Name):
@@ -58,12 +64,19 @@ class RoleFlow:
         if isinstance(e, ast.Call) and src(e.func) in ('float', 'int', 'np.float64', 'abs') and len(e.args) == 1:
             return self.describe(fi, e.args[0], seen)
         inner = set()
+        bases = set()
         for x in ast.walk(e):
-            if x is e:
+            if isinstance(x, ast.Subscript) and _key_path(x) is not None:
+                b_ = x
+                while isinstance(b_, ast.Subscript):
+                    b_ = b_.value
+                bases.add(id(b_))
+        for x in ast.walk(e):
+            if x is e or id(x) in bases:
                 continue
             kp = _key_path(x)
             if kp is not None:
-                inner.add(('key', kp))
+                inner |= self.keyed(fi, x, kp, seen)
             elif isinstance(x, ast.Name) and isinstance(x.ctx, ast.Load) and (x.id in fi.params or any(True for _ in self._assigns(fi, x.id))):
                 for o in self.local(fi, x.id, seen):
                     inner.add(o)
@@ -76,6 +89,90 @@ class RoleFlow:
                     flat.add(o)
             return {('expr', src(e)[:60], frozenset(flat))}
         return {('unknown', src(e)[:60])}
+
+    def keyed(self, fi, e, kp, seen):
+        """a constant-key lookup: when the dictionary looked into is itself a section of the definition (a local or parameter bound to
+        <definition>["Section"]), the section's key path is put in front; a dictionary this module builds under string keys is read by key"""
+        base = _key_base(e)
+        if base is None:
+            return {('key', kp)}
+        if len(kp) == 1:
+            built = self.dict_key(fi, ast.Name(id=base, ctx=ast.Load()), kp[0], seen, strict=True)
+            if built:
+                return built
+        pre = {o[1] for o in self.local(fi, base, seen) if o[0] == 'key'} if (base in fi.params or any(True for _ in self._assigns(fi, base))) else set()
+        return {('key', p_ + kp) for p_ in pre} or {('key', kp)}
+
+    def dict_key(self, fi, e, key, seen, strict=False):
+        """origins of the value stored under the string `key` of the dictionary expression e (a dict display, dict(...), dict.fromkeys(...), the
+        result of a function of the searched modules, plus `name[key] = value` stores into the local).  strict: empty unless e is recognisably a
+        dictionary built here."""
+        tag = (fi.key, 'dict', ast.dump(e)[:80], key)
+        if tag in seen:
+            return set()
+        seen = seen | {tag}
+        out = set()
+        if isinstance(e, ast.Dict):
+            for k, v in zip(e.keys, e.values):
+                if isinstance(k, ast.Constant) and k.value == key:
+                    out |= self.describe(fi, v, seen)
+            return out
+        if isinstance(e, ast.Call):
+            fn = src(e.func)
+            if fn == 'dict' and not e.args:
+                for k in e.keywords:
+                    if k.arg == key:
+                        out |= self.describe(fi, k.value, seen)
+                return out
+            if fn == 'dict.fromkeys' and e.args and isinstance(e.args[0], (ast.List, ast.Tuple)) and \
+                    any(isinstance(x, ast.Constant) and x.value == key for x in e.args[0].elts):
+                return self.describe(fi, e.args[1], seen) if len(e.args) > 1 else {('const', None)}
+            if isinstance(e.func, ast.Name):
+                for callee in self.by_name.get(e.func.id, []):
+                    if callee.cls is None:
+                        for r in walk_own(callee.node):
+                            if isinstance(r, ast.Return) and r.value is not None:
+                                # the callee's parameters are bound at this very call
+                                out |= self._rebind(callee, fi, e, self.dict_key(callee, r.value, key, seen, strict), seen)
+                return out
+            return out
+        if isinstance(e, ast.Name):
+            is_dict = False
+            for v in self._assigns(fi, e.id):
+                got = self.dict_key(fi, v, key, seen, strict=True)
+                if got or isinstance(v, (ast.Dict,)) or (isinstance(v, ast.Call) and src(v.func) in ('dict', 'dict.fromkeys')):
+                    is_dict = True
+                out |= got
+            for n in walk_own(fi.node):
+                if isinstance(n, ast.Assign):
+                    for t in n.targets:
+                        if isinstance(t, ast.Subscript) and isinstance(t.value, ast.Name) and t.value.id == e.id and isinstance(t.slice, ast.Constant) \
+                                and t.slice.value == key:
+                            is_dict = True
+                            out |= self.describe(fi, n.value, seen)
+            if not is_dict and not strict:
+                out.add(('unknown', 'dictionary %s' % e.id))
+            return out
+        return out if strict else {('unknown', src(e)[:40])}
+
+    def _rebind(self, callee, fi, call, origins, seen):
+        """origins computed inside `callee` for the call `call` made in fi: ('param', callee, p) entries replaced by the origins of the argument"""
+        out = set()
+        params = callee.params
+        for o in origins:
+            if o[0] == 'param' and o[1] == callee.qualname:
+                arg = None
+                if o[2] in params and params.index(o[2]) < len(call.args):
+                    arg = call.args[params.index(o[2])]
+                for k in call.keywords:
+                    if k.arg == o[2]:
+                        arg = k.value
+                out |= self.describe(fi, arg, seen) if arg is not None else {o}
+            elif o[0] == 'expr':
+                out.add(('expr', o[1], frozenset(self._rebind(callee, fi, call, set(o[2]), seen))))
+            else:
+                out.add(o)
+        return out
 
     def _assigns(self, fi, name):
         for n in walk_own(fi.node):
@@ -123,11 +220,20 @@ class RoleFlow:
         out = set()
         n_sites = 0
         for fi, c, params in self.call_sites(callee):
-            if any(isinstance(a, ast.Starred) for a in c.args) or any(k.arg is None for k in c.keywords):
+            if any(isinstance(a, ast.Starred) for a in c.args):
                 out.add(('unknown', 'starred call ' + src(c)[:40]))
                 n_sites += 1
                 continue
             arg = None
+            spread = [k.value for k in c.keywords if k.arg is None]
+            if spread and not (name in params and params.index(name) < len(c.args)) and not any(k.arg == name for k in c.keywords):
+                # f(..., **d): the parameter is the entry of d under its own name
+                n_sites += 1
+                got = set()
+                for d_ in spread:
+                    got |= self.dict_key(fi, d_, name, seen)
+                out |= got
+                continue
             if name in params and params.index(name) < len(c.args):
                 arg = c.args[params.index(name)]
             for k in c.keywords:
@@ -156,6 +262,14 @@ class RoleFlow:
                         if isinstance(t, ast.Attribute) and isinstance(t.value, ast.Name) and t.value.id == 'self' and t.attr == field:
                             sites.append((fi, n))
                             out |= self.describe(fi, n.value, frozenset())
+                        elif isinstance(t, (ast.Tuple, ast.List)):
+                            for j, x in enumerate(t.elts):
+                                if isinstance(x, ast.Attribute) and isinstance(x.value, ast.Name) and x.value.id == 'self' and x.attr == field:
+                                    sites.append((fi, n))
+                                    if isinstance(n.value, (ast.Tuple, ast.List)) and len(n.value.elts) == len(t.elts):
+                                        out |= self.describe(fi, n.value.elts[j], frozenset())
+                                    else:
+                                        out.add(('unknown', src(n.value)[:40]))
         return out, sites
 
 
